@@ -124,6 +124,22 @@ func ruleLastChunk(c *Ctx, r *Rep, tier string) {
 				}
 			}
 		})
+		// after moving to the next block in the leading skip, emptiness is tested again
+		// before Begin is taken (a `for`, not an `if`: two empty members in a row, or an
+		// empty member before the EOF marker, must both be skipped)
+		isLenTest := func(ins ssa.Instruction) bool { return isInvokeOnField(ins, fCur, "len") }
+		allInstrs(fn, func(ins ssa.Instruction) {
+			if !isNext(ins) {
+				return
+			}
+			// only block changes that can reach the Begin assignment without consuming
+			if _, reach := pathTo(locOf(ins), isBegin, isConsume, nil); !reach {
+				return
+			}
+			if _, ok := mustPass(locOf(ins), isBegin, isLenTest, nil); !ok {
+				why += fmt.Sprintf(" after the block change at %s lastChunk.Begin is taken and data consumed without testing again whether the new block is empty: a second empty member yields a spurious zero byte / misplaced Begin;", c.Pos(ins.Pos()))
+			}
+		})
 		// every return after a consume passes an End assignment made after the last consume / block change
 		allInstrs(fn, func(ins ssa.Instruction) {
 			if isConsume(ins) {
